@@ -64,7 +64,43 @@ REQUIRED_PROBES = {
 }
 LAT = [0.0, 0.001, 1.0, 60.0, 3600.0]
 KEYS = ["k0", "k1", "k2", "K0", "title", "never"]
-QVALS = [1, 2, 3, "x", [1, 2], "1", 1.0, 0, "", False, [], 0.3, 0.1 + 0.2, 831.76, 831.7600001]
+QVALS = [1, 2, 3, "x", [1, 2], "1", 1.0, 0, "", False, [], 0.3, 0.1 + 0.2, 831.76, 831.7600001,
+         ["@array", 1.0, 2.0], ["@array", 3.0, 4.0], ["@array", 1.0, 2.0]]
+
+
+class ArrayLike:
+    """A value whose comparisons are element-wise (like an array's): `a != b` is another
+    ArrayLike and has no truth value."""
+
+    def __init__(self, xs):
+        self.xs = list(xs)
+
+    def __eq__(self, o):
+        return ArrayLike([x == y for x, y in zip(self.xs, getattr(o, "xs", [o] * len(self.xs)))])
+
+    def __ne__(self, o):
+        return ArrayLike([x != y for x, y in zip(self.xs, getattr(o, "xs", [o] * len(self.xs)))])
+
+    def __bool__(self):
+        raise ValueError("The truth value of an array with more than one element is ambiguous")
+
+    __hash__ = None
+
+    def __repr__(self):
+        return f"ArrayLike({self.xs})"
+
+
+def qvalue(v):
+    "Decode a generated query-metadata value (a fresh object each time for array-likes)."
+    if isinstance(v, list) and v[:1] == ["@array"]:
+        return ArrayLike(v[1:])
+    return v
+
+
+def same_qvalue(got, exp):
+    if isinstance(got, ArrayLike) or isinstance(exp, ArrayLike):
+        return got is exp
+    return got == exp
 
 # ---------------------------------------------------------------------------------------------
 # lambda catalog (opaque specs: never evaluated; chosen to walk every in-place-editing path)
@@ -1114,7 +1150,7 @@ class Forest:
                 for k in KEYS:
                     got = lookup_query_metadata(m.stream, k)
                     exp = m.md.get(k)
-                    if got != exp:  # Python equality: 1 then 1.0 is 'the same value set again'
+                    if not same_qvalue(got, exp):  # Python equality: 1 then 1.0 is 'the same value set again'
                         if exp is not None and got is None:
                             sub = "lost-earlier-key"
                         elif exp is None:
@@ -1393,7 +1429,8 @@ class Forest:
         if parent.made_by == "QMetaData":
             self.stat("probe_qmetadata_twice_in_a_row")
         self.derive_stack = op.get("stack")
-        given = dict(op["md"])  # the caller's own dict object
+        given = {k: qvalue(v) for k, v in op["md"].items()}  # the caller's own dict object
+        decoded = dict(given)
         try:
             new, ex = self.builder(lambda: parent.stream.QMetaData(given))
         finally:
@@ -1406,9 +1443,14 @@ class Forest:
             given["k2" if "k2" not in given else "k1"] = "added-by-caller-later"
         if ex is not None:
             self.stat("derive_raised")
+            if "C16" in self.oracles and not op.get("stack"):
+                # nothing about a dict of values gives QMetaData a reason to fail
+                raise Violation("C16/lookup/qmetadata-raised",
+                                {"md": repr(decoded)[:200], "exc": repr(ex)[:200],
+                                 "inherited": {k: repr(parent.md.get(k))[:60] for k in decoded}})
             return
         md = dict(parent.md)
-        md.update(op["md"])
+        md.update(decoded)
         for k in op["md"]:
             if k in parent.md:
                 self.stat("qmd_repeated_key")
@@ -1453,7 +1495,7 @@ class Forest:
             return
         exp = m.md.get(op["key"])
         self.ev("lookup_deep", m.idx, op["key"], repr(got))
-        if "C16" in self.oracles and got != exp:
+        if "C16" in self.oracles and not same_qvalue(got, exp):
             sub = ("lost-earlier-key" if exp is not None and got is None
                    else "phantom" if exp is None else "stale-or-leaked-value")
             raise Violation(f"C16/lookup/{sub}",
